@@ -4,11 +4,11 @@ from __future__ import annotations
 from fractions import Fraction
 
 from ..conform import sweep
-from ..evalr import Obj, FuncV
+from ..evalr import Obj, FuncV, PartialV, LambdaV
 from ..mirror import lint
 from ..numeval import CannotEvaluate, evaluate
 from ..spec import SCORES, POS, NEG, EP, EN, returns, raises, unmodelled_text, pc_text
-from ..terms import (App, Const, Num, Sym, Tup, Vec, same, show, sub, add, mul, div, neg, atoms_of, to_poly, cmp0, conj, subst, mk_num)
+from ..terms import (App, Const, Num, Sym, Tup, Vec, same, show, sub, add, mul, div, neg, atoms_of, to_poly, cmp0, conj, subst, mk_num, V)
 from ..simp import mk_app
 from .c11 import make_config
 
@@ -346,7 +346,7 @@ def band_functions(ctx, chk):
         def st_bci(ev_, fi, bound):
             calls["bci"].append(dict(bound))
             m = bound.get("metric")
-            if isinstance(m, FuncV):
+            if isinstance(m, (FuncV, PartialV, LambdaV)):
                 smp = ctx.scores_obj("pos", "pos")
                 smp.label = "sample"
                 calls["metric"] = ev_.call(m, [smp], {})
@@ -389,6 +389,8 @@ def band_functions(ctx, chk):
             want_m = App("stack", (Tup([App("FNR@sample", (App("THRESHOLD_AT_FPR@sample", (fpr,)),)), App("FPR@sample", (App("THRESHOLD_AT_FNR@sample", (fnr,)),))]),), [("axis", Const(0))])
             if m is not None and same(m, want_m):
                 chk.hold("R16.2", short + ":joint-metric", "metric(sample) = stack([FNR at the FPR-matched threshold, FPR at the FNR-matched threshold], axis=0)")
+            elif m is None and calls["bci"] and calls["bci"][-1].get("metric") is not None and not isinstance(calls["bci"][-1].get("metric"), V):
+                chk.unknown("R16.2", "%s: the metric passed to bootstrap_ci is a callable the evaluator does not apply (%r)" % (short, calls["bci"][-1].get("metric")))
             else:
                 chk.violation("R16.2", q, "joint-metric", show(m, 260) if m is not None else "no metric closure passed to bootstrap_ci", show(want_m, 260), ctx.where(q))
             b = calls["bci"][0] if calls["bci"] else {}
